@@ -215,7 +215,7 @@ TABLE_ATOMS = [
     A("comment", "note", "comment", {"comment": "a note"}), A("marker", "star", "marked", {"marked": ":star:"}),
     # regexes with white space in them (always written in quotes) and their white-space twins
     A("bq", "a b", "req_body", {"req_body": "xa bx"}, twin=("a  b", {"req_body": "xa  bx"})),
-    A("bs", "x y", "resp_body", {"resp_body": "x y"}, twin=("x    y", {"resp_body": "x    y"})),
+    A("bs", "x y", "resp_body", {"resp_body": "x y"}, twin=("x\ty", {"resp_body": "x\ty"})),   # other KIND of white space: a literal TAB
     A("hq", "x-req: one", "req_header", {"req_headers": [["X-Req", "one"]]},
       twin=("x-req:  one", {"req_headers": [["X-Req", " one"]]})),
     A("comment", "a note", "comment", {"comment": "a note"}, twin=("a   note", {"comment": "a   note"})),
@@ -246,7 +246,7 @@ POOL_ATOMS = [A("http", None, "", {}), A("tcp", None, "", {}), A("udp", None, ""
               A("dst", ":53$", "", {}), A("comment", "^a note$", "", {}), A("m", "^post$", "", {}),
               A("hq", "x-req: one", "", {}), A("h", "two|srv", "", {}), A("hs", "^x-resp: two$", "", {}),
               A("hs", "^server", "", {})]
-# a literal TAB inside the quotes (random driver only): pyparsing expands tabs before it parses
+# a literal TAB inside the quotes: pyparsing expands tabs before it parses unless parse_with_tabs() is set (finding F6, fixed)
 TAB_QUOTED = [dict(A("bs", "x\ty", "resp_body", {"resp_body": "x\ty"}), quote_anyway=True),
               dict(A("comment", "a\tnote", "comment", {"comment": "a\tnote"}), quote_anyway=True)]
 # regex written in quotes although it contains a backslash escape (random driver only)
@@ -485,7 +485,7 @@ def ref_parse(text, atoms):
 
 def features(flags):
     fparse = next((f for f in ("unary_before_rparen", "juxtaposition_in_group") if f in flags), "plain")
-    feval = next((f for f in ("quoted_backslash", "tab_in_quotes", "juxtaposition_beside_or", "header_end_anchor") if f in flags), "plain")
+    feval = next((f for f in ("quoted_backslash", "juxtaposition_beside_or", "header_end_anchor", "tab_in_quotes") if f in flags), "plain")
     return fparse, feval
 
 
@@ -637,7 +637,6 @@ class Check(core.PropertyCheck):
         "inside quotes only the backslash before the quote character is an escape; other backslashes belong to the regex",
     )
     PROCS = 6
-    _tabs = False
 
     def mon_constants(self, tier):
         return {}
@@ -727,7 +726,6 @@ class Check(core.PropertyCheck):
 
     def scenarios(self, ctx, models):
         rng = random.Random(ctx.seed + 42)
-        self._tabs = not ctx.quick  # literal TABs in quotes (finding F6, entry C42-tab-in-quotes): thorough tier only
         kinds = self.model_constants(ctx.tier)["AtomKind"]
         behs, total = self._complete(models[0].graph, ctx.rng, 500 if ctx.quick else 1412)
         ctx.notes["complete_expressions_in_graph"] = total
@@ -754,6 +752,7 @@ class Check(core.PropertyCheck):
             ([e, mk, mp], "~e & ( ~marked & ~m POST )"), ([e, mk], "!!~e | ! ~marked"), ([e, mk, mp], "!( ~e | ~m 'POST' ) ~marked"),
             ([e, mk, mp], "( ~e | ~marked ) & ~m \"POST\""), ([e, mp, c4], "~e & ~m POST | ~c 404"), ([nk, c4], "alpha (~c 404)"),
             ([e, ua], "! ( ~u alpha & ~e )"),
+            ([e, TAB_QUOTED[0]], '~e | ~bs "x\ty"'), ([TAB_QUOTED[1], mk], "~comment\t'a\tnote' &\t~marked"),
         ]
         out = [{"atoms": a, "text": t, "uses": [], "rseed": 0, "table": True, "pool": [0, 1, 5, 8]} for a, t in texts]
         for sc in out:
@@ -776,7 +775,7 @@ class Check(core.PropertyCheck):
         if table:
             k = rng.randint(2, 4)
             for _ in range(200):
-                src = TABLE_ATOMS + (QUOTED_BACKSLASH if rng.random() < 0.15 else []) + (TAB_QUOTED if self._tabs and rng.random() < 0.1 else [])
+                src = TABLE_ATOMS + (QUOTED_BACKSLASH if rng.random() < 0.15 else []) + (TAB_QUOTED if rng.random() < 0.1 else [])
                 atoms = [rng.choice(src) for _ in range(k)]
                 if compatible(atoms):
                     break
@@ -823,6 +822,8 @@ class Check(core.PropertyCheck):
             if ev["k"] == "parse":
                 ev.pop("text", None)
                 ev.pop("exc", None)
+                if ev["feval"] == "tab_in_quotes":   # which white space stands inside the quotes is the harness's choice
+                    ev["feval"] = "plain"
                 ev["uses"] = sorted(u for u in ev["uses"] if u in MODEL_USES)
             elif ev["k"] == "verdicts":
                 n = 2 ** len(ev["facts"][0]) if ev["facts"] else 0   # the table flows come first; pool flows follow
